@@ -144,6 +144,10 @@ def run_prop(prop, tier, seed, replay=None, make_cases=None):
         stats['programs'] += istats['programs']
         nontrivial |= inon
         violations += [v for v in iviol if 'expected items' in v['oracle'] or 'does not compile' in v['oracle']]
+        # the generated helper impls = the user's blocks plus the row (the assumption of Dispatch.v)
+        ncmp, gviol = pe.check_genimpls([c.invocation() for c in cases] + [c17.invocation(c) for c in icases])
+        stats['helper_impls_compared'] = ncmp
+        violations += gviol
     if stats['spec_checked'] and stats['oracle_inconclusive'] > max(2, 0.02 * stats['spec_checked']):
         raise cm.HarnessError('the Coq model of trait resolution (RustSem.applicable) disagrees with rustc on %d of %d cases'
                               % (stats['oracle_inconclusive'], stats['spec_checked']))
